@@ -97,13 +97,22 @@ Definition tick_ok (t : Z) (s : st) : bool :=
 Definition do_tick (t : Z) (s : st) : st :=
   if tick_ok t s then mkS t false (s_pslot s) (s_cap s) (s_ent s) (s_heap s) else s.
 
-(* nested_schedule_node_impl on child [k] while it is idle; a notification for the current time can only
-   come from a producer ranked before the map node, i.e. before the map node's evaluation in this cycle *)
+(* nested_schedule_node_impl on child [k] while it is idle.  Two combinations cannot arise in a ranked
+   graph under the simulation executor and are ignored (see notes-map.md):
+   - a notification for the current time after the map node was evaluated in this cycle (it would need a
+     producer ranked after the map node);
+   - a request for a FUTURE time while the map node is due in this cycle and not yet evaluated:
+     schedule_node_impl would overwrite the due slot ([push_future_overwrites_due] in MapSchedFacts.v);
+     before the map node runs, the only out-of-band schedules are input notifications for the current time. *)
+Definition push_ok (w : Z) (s : st) : bool :=
+  ((s_now s <? w) || negb (s_done s)) &&
+  negb ((s_pslot s =? s_now s) && negb (s_done s) && (s_now s <? w)).
+
 Definition do_push (k : nat) (when : Z) (s : st) : st :=
   let w := Z.max when (s_now s) in
   match s_ent s k with
   | Some e =>
-      if e_started e && ((s_now s <? w) || negb (s_done s)) then
+      if e_started e && push_ok w s then
         psched w (hpush (w, k, false) (set_ent k (Some (mkE true (e_pulled e) (Z.min (e_next e) w))) s))
       else s
   | None => s
